@@ -45,6 +45,7 @@ Next ==
          r == Consume(a1, i + 1)
          v == r[1].viol IN
      /\ \A k \in DOMAIN v : Show(Rec[i].run, v[k])
+     /\ r[1].ovl => PrintT(<<"OVL", Rec[i].run>>)
      /\ i' = r[2]
      /\ runs' = runs + 1
      /\ bad' = IF v = <<>> THEN bad ELSE bad + 1
